@@ -15,16 +15,18 @@ comparison against the same threshold, and every other entry is set to the const
 that predicate and the non-zero test, no data-dependent condition guards the rewrite (so an infoset
 with survivors always loses its small actions); (3) the
 probability vector is partitioned by num_actions of the infosets of the *same* player
-(player_infosets zipped with probs, in order). Not decided: "nothing changes beyond rounding" and
+(player_infosets zipped with probs, in order). split.rs hands the dense vector's chunks out front to back (both `next` implementations: item = first `len` elements of the rest, remainder kept). Not decided: "nothing changes beyond rounding" and
 idempotence as numbers.
 """
 ASSUMPTIONS = ['f64 arithmetic is not evaluated: only guards, predicates and data flow are decided',
-               'split_by_mut partitions a slice by the given lengths (its own MIR is covered by C13.layout)']
+               'std slice::split_at_mut has its documented semantics (split.rs itself is decided by chunks-front-to-back)']
 NOT_DECIDED = ['numeric closeness to the original profile', 'idempotence as numbers']
 
 
 def run(ctx):
     lib = ctx.lib
+    import splits
+    splits.front_to_back(ctx, 'C18')
     divisions.run(ctx, 'C18')
     f = ctx.fn('lib', "Strategies::<'a, I, A>::truncate", 'C18.anchor')
     if f is None:
@@ -133,6 +135,11 @@ def run(ctx):
                     on_false = [v for b, cs, v in vals if any(c['switch'] == g['switch'] and c.get('truth') is False for c in cs)]
                     if on_true and on_false and on_true[0][0] == 'bin' and on_true[0][1] == 'Div':
                         zero_ok = is_const(on_false[0], 0)
+            if not zero_ok:
+                # statement form: `if keep { *p /= total } else { *p = 0.0 }` — a store of 0.0 to the element on the other edge
+                for bi, st, pl, rhs in q.stores(f):
+                    if is_const(facts.strip_refs(rhs), 0) and norm(pl) == num and any(c['switch'] == g['switch'] and c.get('truth') is False for c in f.conds(bi)):
+                        zero_ok = True
             ctx.verdict(zero_ok, 'C18.others-zero', 'C18.others-zero:%s' % q.top(f.name),
                         'entries not kept are set to the constant 0.0', site, 'value on the other edge is %s0.0' % ('' if zero_ok else 'not '))
     # --- zeroing only when something survives (independent of how the sum is written)
